@@ -28,6 +28,7 @@ from .harness import (
     CONFIGS,
     MODE_OF,
     EndsOnlyRecorder,
+    MiddlewareObject,
     Recorder,
     StartsOnlyRecorder,
     make_middleware,
@@ -64,10 +65,10 @@ PROFILES = {
                 configs="one", boom=(0, 1), activities=True, overlap=True),
     "C10": dict(nreq=(1, 2), mutation=(1, 4), variants=True, reps=1,
                 configs="two", boom=(0, 1), nonfinite=(1, 6),
-                corruption=True, shared_errors=True),
+                corruption=True, shared_errors=True, badenum=True),
     "C16": dict(nreq=(1, 2), mutation=(1, 3), variants=True, reps=1,
                 configs="all", boom=(1, 8), stacks=True, overlap=True,
-                l2=(1, 2)),
+                l2=(1, 2), badenum=True),
 }
 
 
@@ -334,6 +335,13 @@ def _finish_request(draws, spec, req, idx, profile, rs, tier):
                 b = b if b < a else b + 1
                 req.faults = {cand[a]: "errsh", cand[b]: "errsh"}
                 req.variant = "shared-error"
+        if profile.get("badenum") and not boom_on and not req.nonfinite \
+                and req.variant == "normal" and base.enum_fields and \
+                fs.chance(1, 10, "badenum"):
+            # a resolver handing back a value outside its enum type
+            req.faults = {base.enum_fields[fs.below(len(base.enum_fields),
+                                                    "badenum_at")]: "badenum"}
+            req.variant = "badenum"
         req.exp = expected_response(
             spec, op, World(spec, req.wseed, req.faults,
                             nonfinite=req.nonfinite), root_value=req.root)
@@ -811,7 +819,11 @@ def _execute(config, bundle, spec, req, sched, policy):
     for i, is_async in enumerate(req.mws):
         is_async = is_async and mode == "asyncio"
         mw_tags.append("M%d" % i)
-        mws.append(make_middleware("M%d" % i, is_async))
+        if not is_async and (req.wseed >> (5 + i)) % 3 == 0:
+            # a callable object comparing by value, one instance per run
+            mws.append(MiddlewareObject("M%d" % i))
+        else:
+            mws.append(make_middleware("M%d" % i, is_async))
     tracer_box = []
 
     def instr_factory(kref):
@@ -870,6 +882,15 @@ def _execute(config, bundle, spec, req, sched, policy):
         )
     finally:
         _tracers.datetime = _dt
+    # what each configured middleware OBJECT has seen itself must be what
+    # was logged under its tag in this run
+    out.mw_bypassed = None
+    for m in mws:
+        if isinstance(m, MiddlewareObject):
+            logged = sum(1 for e in out.kernel.log.events
+                         if e[3] == "mw_enter" and e[5][0] == m.tag)
+            if logged != m.seen:
+                out.mw_bypassed = (m.tag, m.seen, logged)
     return out, (tags, mw_tags, tracer_box[0] if tracer_box else None)
 
 
@@ -877,6 +898,13 @@ def _evaluate(res, prop, config, req, out, hooks):
     tags, mw_tags, tracer = hooks
     V = res.violations
     events = out.kernel.log.events
+    if getattr(out, "mw_bypassed", None):
+        tag, seen, logged = out.mw_bypassed
+        V.append(Violation(
+            ("C16",), "middleware", (config, "configured-instance-bypassed"),
+            "the middleware object configured for this request (%s) was "
+            "called %d times; %d calls were made under its name, by some "
+            "other instance" % (tag, seen, logged)))
     if out.status == "stepcap":
         raise HarnessError("step cap hit in %s" % config)
     exp = req.exp
@@ -921,6 +949,19 @@ def _evaluate(res, prop, config, req, out, hooks):
                 ("shared-resolver-error-instance", "paths"),
                 "the same ResolverError instance raised at %r: errors carry "
                 "paths %r" % (want, got)))
+        return
+    if req.variant == "badenum":
+        # No answer is specified for a developer error of this kind (py-gql
+        # raises RuntimeError); whatever happens, a response must be well
+        # formed and no hook may fire twice.
+        if out.status == "ok":
+            res.count("probe:bad_enum_value_answered")
+            V.extend(oracles.check_wellformed("execution", config,
+                                              out.result, req.text, None))
+        else:
+            res.count("probe:bad_enum_value_refused")
+        V.extend(oracles.check_hooks(
+            config, "crashed", exp, events, tags, mw_tags, crashed=True))
         return
     if req.variant == "normal":
         if exp.crash:
